@@ -384,7 +384,9 @@ def build(tier, seed):
                      must_return=lambda o, kind=kind: kind != "Other", native_call=ncall)]))
 
     # pauli_prod: list of symbolic length; elements are operator instances (or classes) of symbolic kind
-    TI = w.aseq(Int)                      # axiomatic finite sequences of kind codes
+    # (a world of its own: the quantified sequence axioms stay out of the other, quantifier-free, contracts)
+    w_seq = XWorld(PT_FILE, stubs=stubs, functions=FUNCS)
+    TI = w_seq.aseq(Int)                  # axiomatic finite sequences of kind codes
     XF = [z3.Function("xorfold_x", TI.sort, z3.IntSort(), z3.IntSort()), z3.Function("xorfold_z", TI.sort, z3.IntSort(), z3.IntSort())]
 
     def bit_of(kterm, which):
@@ -454,7 +456,7 @@ def build(tier, seed):
         def ngen(rng, m):
             return dict(m, ops=[rng.randint(0, 4) for _ in range(rng.choice([0, 1, 1, 2, 3, 4, 6]))])
         lab = "classes" if is_class else "instances"
-        contracts.append(FnContract(w, "pauli_prod", [
+        contracts.append(FnContract(w_seq, "pauli_prod", [
             Case(f"list-of-pauli-{lab}", {"ops": OPS}, requires=lambda a: every(a.ops, is_pauli),
                  loops={0: LoopSpec(inv=prod_inv, axioms=lambda v: fold_axioms(v.ops.term, 1 + v._i0))},
                  axioms=lambda o, r, n: fold_axioms(o.ops.term, 1)[:1] + fold_axioms(o.ops.term, 1)[2:3],
